@@ -230,7 +230,7 @@ def run(ctx):
     res.assumptions = ["labels containing '.' or NUL are not generated (iodine represents names as dotted C strings)",
                        "replies shorter than a DNS header carry no id and must reach nobody"]
     rng = random.Random(ctx.seed * 3331 + 20)
-    n = ctx.pick(200, 6000)
+    n = ctx.pick(400, 30000)
     plist = [{"idx": i, "seed": ctx.seed * 100000 + i, "rseed": rng.getrandbits(32), "nops": rng.randint(60, 250),
               "idspace": rng.choice([3, 4, 6, 10, 20]), "nreq": rng.randint(2, 12), "v6": rng.random() < 0.3,
               "opt_c": rng.random() < 0.2} for i in range(n)]
@@ -242,7 +242,7 @@ def run(ctx):
         if not ctx.replay:
             drv = b.unit("fwq", ["fwq.c"], objs=[], libs=())
             sh = ctx.jobs
-            unitrun.run_sharded(res, "C20", drv, sh, lambda i: [i, sh, ctx.pick(7, 8), ctx.pick(4, 5), ctx.seed, ctx.pick(2000, 40000)])
+            unitrun.run_sharded(res, "C20", drv, sh, lambda i: [i, sh, ctx.pick(7, 8), ctx.pick(4, 5), ctx.seed, ctx.pick(2000, 400000)])
             res.exhaustive = None
         simrun.run_scenarios(res, b, scn, plist, jobs=ctx.jobs)
     simrun.finalize_sets(res)
